@@ -173,7 +173,7 @@ Proof.
   destruct (scan_users t now h (s_users s)) as [us ids]. cbn [fst snd] in *.
   destruct ids as [|[id x] [|e r]]; cbn [map length]; intro Hlen.
   - exact Hs.
-  - exact Hs.
+  - destruct (hinsert h id (s_hcache s) (s_hrev s)). exact Hs.
   - lia.
 Qed.
 
@@ -281,7 +281,7 @@ Lemma setUser_refused s id u e :
 Proof.
   intros HC Hu. unfold setUser. rewrite !uget_nget, Hu, uset_nset, (nset_noop _ _ _ Hu).
   set (s00 := St (s_users s) (s_hcache s) (s_hrev s) (s_ncache s) (s_nrev s) (N.max (s_next s) id)).
-  assert (HC00 : CacheInv s00) by (destruct HC as [A B C]; split; assumption).
+  assert (HC00 : CacheInv s00) by (destruct HC as [A]; split; assumption).
   destruct (invalidate_fold_ok (u_auth u) s00 HC00) as [s0 [Hf [Hu0 [Hn0 [Hsub0 [Hnone0 HC0]]]]]].
   rewrite Hf. change (s_users s00) with (s_users s) in Hu0.
   destruct (name_lookup_facts s0 (u_name u) HC0) as [HC1 [Hu1 [Hc1 [Hr1 Hn1]]]].
@@ -298,6 +298,25 @@ Proof.
     apply (same_db_rollback _ _ u); [exact Hu|]. rewrite (nset_noop _ _ _ Hu). exact Hov. }
   destruct (invalidate_id_ok (with_users s1 us1) id (CacheInv_users _ _ HC1)) as [s3 [Hinv _]].
   rewrite Hinv. cbn [snd]. discriminate.
+Qed.
+
+(* users.setUser only ever refuses with DuplicateHostmask: in particular never with
+   a KeyError out of the cache bookkeeping, whatever CacheDict has evicted *)
+Lemma setUser_only_refuses s id u e :
+  CacheInv s -> snd (setUser t now s id u) = Raise e -> e = DuplicateHostmask.
+Proof.
+  intros HC. unfold setUser.
+  set (us0 := match uget id (s_users s) with Some _ => uset id u (s_users s) | None => s_users s end).
+  set (s00 := St us0 (s_hcache s) (s_hrev s) (s_ncache s) (s_nrev s) (N.max (s_next s) id)).
+  assert (HC00 : CacheInv s00) by (destruct HC as [A]; split; assumption).
+  destruct (invalidate_fold_ok (u_auth u) s00 HC00) as [s0 [Hf [_ [_ [_ [_ HC0]]]]]]. rewrite Hf.
+  destruct (name_lookup_facts s0 (u_name u) HC0) as [HC1 _].
+  destruct (getUserIdByName s0 (u_name u)) as [s1 r]. cbn [fst] in HC1.
+  destruct (match r with Ok other => negb (N.eqb other id) | Raise _ => false end); [cbn; intro E; inversion E; reflexivity|].
+  destruct (overlap_all t now id (u_masks u) (s_users s1)) as [us1 dup].
+  destruct dup; [cbn; intro E; inversion E; reflexivity|].
+  destruct (invalidate_id_ok (with_users s1 us1) id (CacheInv_users _ _ HC1)) as [s3 [Hinv _]].
+  rewrite Hinv. cbn. discriminate.
 Qed.
 
 Lemma ieq_refl x : ieq x x = true.
@@ -602,7 +621,7 @@ Proof.
     r_ok out = false -> r_amb out = false -> same_db (s_users s) (s_users (r_st out))).
   { intro addmask. unfold newUser. cbv zeta. set (id := s_next s2 + 1) in *.
     set (s3 := St (uset id (User [] [] [] false) (s_users s2)) (s_hcache s2) (s_hrev s2) (s_ncache s2) (s_nrev s2) id).
-    assert (HC3 : CacheInv s3) by (destruct HC2 as [A B C]; split; assumption).
+    assert (HC3 : CacheInv s3) by (destruct HC2 as [A]; split; assumption).
     assert (Hstore : forall u, s_users (store s3 id u) = nset id u (s_users s2)).
     { intro u. unfold store, s3. cbn [with_users s_users]. rewrite !uset_nset. apply nset_nset_same. }
     destruct (addmask && negb (o_long o)).
